@@ -422,7 +422,19 @@ func (c *Ctx) addOrPanicSites() {
 				}
 			}
 			freshSet := false
-			for v := range backClosure(set, flowThrough) {
+			// (the get-or-create of the set may sit in a helper: its results are followed)
+			through := func(x ssa.Value) []ssa.Value {
+				out := flowThrough(x)
+				if cl, ok := x.(*ssa.Call); ok {
+					if h := cl.Call.StaticCallee(); h != nil && InModule(h) && len(h.Blocks) > 0 && !strings.HasPrefix(h.Name(), "NewGraphEdgeSet") {
+						for r := range returnClosure(h, 0) {
+							out = append(out, r)
+						}
+					}
+				}
+				return out
+			}
+			for v := range backClosure(set, through) {
 				if cl := callOf(v); cl != nil && cl.Call.StaticCallee() != nil && strings.HasPrefix(cl.Call.StaticCallee().Name(), "NewGraphEdgeSet") {
 					freshSet = true
 				}
